@@ -18,7 +18,17 @@ impl Default for Titles {
 }
 
 //@@ item src/processor.rs :: enum ProcessDesision
+//@@ derives PartialEq
 //@@ enditem
+// trusted stand-in for #[derive(PartialEq)] on the field-less enum ProcessDesision: equality of the variants
+impl PartialEq for ProcessDesision {
+    #[verifier::external_body]
+    fn eq(&self, other: &Self) -> (r: bool) ensures r == (*self == *other) { unimplemented!() }
+}
+impl vstd::std_specs::cmp::PartialEqSpecImpl for ProcessDesision {
+    open spec fn obeys_eq_spec() -> bool { true }
+    open spec fn eq_spec(&self, other: &Self) -> bool { *self == *other }
+}
 
 // Get::get is assumed to be a FUNCTION of the getter and the context (standing assumption of C03/C10/C11/C13)
 pub trait Get {
